@@ -1,12 +1,9 @@
 /-
   geodriver — reads protocol lines on stdin, evaluates the exact model, answers one line each.
 -/
-import GeoModel
+import GeoModel.OpsAll
 
 open Geo
-
-def handlers : List (String → List String → List String → Option String) :=
-  [Geo.Ops.C18.handle, Geo.Ops.C19.handle]
 
 def dispatch (line : String) : String :=
   match tokens line with
@@ -15,7 +12,7 @@ def dispatch (line : String) : String :=
     match splitArrow rest with
     | none => "ERR no-arrow"
     | some (inp, out) =>
-      match handlers.findSome? (fun h => h op inp out) with
+      match Geo.Ops.handlers.findSome? (fun h => h op inp out) with
       | some r => r
       | none => "ERR unknown-op " ++ op
 
